@@ -2,7 +2,7 @@
 Model of `src/marker/mod.rs` on `List Char` (C10).
 
 Part 1 — the code: `strReplace` (`str::replace`), `containsSub` (`str::contains`), `escape`
-(`regex::escape`), `sortByLen` (`sort_by(|a, b| b.name.len().cmp(&a.name.len()))`: stable, UTF-8 byte length,
+(`regex::escape`), `sortByLen` / `sortVars` (the two `sort_by` calls: stable, UTF-8 byte length,
 descending), `MarkerString.new` (sequential guarded replace into the matching and the capturing regex),
 `replaceVars` (`StaticOrDynamic::replace`).
 
@@ -82,16 +82,36 @@ def escChar (c : Char) : Str := if isMeta c then ['\\', c] else [c]
 /-- `regex::escape` -/
 def escape (s : Str) : Str := s.flatMap escChar
 
-/-- Stable insertion by descending byte length of the name: `x` (which precedes all of `l` in the
-original order) goes in front of the first element that is not strictly longer. -/
-def insertByLen {β : Type} (x : Str × β) : List (Str × β) → List (Str × β)
+/-- Stable insertion for a strict "comes before" test on names: `x` (which precedes all of `l` in the original
+order) goes in front of the first element that does not come strictly before it. -/
+def insertBy {β : Type} (before : Str → Str → Bool) (x : Str × β) : List (Str × β) → List (Str × β)
   | [] => [x]
-  | y :: ys => if blen y.1 ≤ blen x.1 then x :: y :: ys else y :: insertByLen x ys
+  | y :: ys => if before y.1 x.1 then y :: insertBy before x ys else x :: y :: ys
 
-/-- `v.sort_by(|a, b| b.name.len().cmp(&a.name.len()))` (`slice::sort_by` is stable). -/
-def sortByLen {β : Type} : List (Str × β) → List (Str × β)
+/-- `slice::sort_by` (stable) for the comparator whose `Less` is `before`. -/
+def sortBy {β : Type} (before : Str → Str → Bool) : List (Str × β) → List (Str × β)
   | [] => []
-  | x :: xs => insertByLen x (sortByLen xs)
+  | x :: xs => insertBy before x (sortBy before xs)
+
+/-- `b.name.len().cmp(&a.name.len()) == Less`: `a` is strictly longer (UTF-8 bytes). -/
+def lenBefore (a b : Str) : Bool := decide (blen b < blen a)
+
+/-- `markers.sort_by(|a, b| b.name.len().cmp(&a.name.len()))` in `MarkerString::new`. -/
+def sortByLen {β : Type} (l : List (Str × β)) : List (Str × β) := sortBy lenBefore l
+
+/-- `String::cmp == Less`: lexicographic on the UTF-8 bytes = lexicographic on the code points. -/
+def strLt : Str → Str → Bool
+  | [], [] => false
+  | [], _ :: _ => true
+  | _ :: _, [] => false
+  | a :: as, b :: bs => decide (a.toNat < b.toNat) || (decide (a = b) && strLt as bs)
+
+/-- `key_b.len().cmp(&key_a.len()).then_with(|| key_a.cmp(key_b)) == Less`: longer first, equal lengths by name
+ascending (repair 96f3afa of the HashMap-order finding). -/
+def varBefore (a b : Str) : Bool := decide (blen b < blen a) || (decide (blen a = blen b) && strLt a b)
+
+/-- The final sort of `Rule::variables`. -/
+def sortVars {β : Type} (l : List (Str × β)) : List (Str × β) := sortBy varBefore l
 
 /-- `marker.format()` -/
 def fmt (name : Str) : Str := '@' :: name
